@@ -5,6 +5,8 @@
 #include <vector>
 #include <algorithm>
 
+#include <pthread.h>
+
 using namespace verif;
 
 struct HNode {
@@ -180,6 +182,65 @@ static void random_histories(const char *mode, uint64_t ncases, size_t maxn, uns
 	}
 }
 
+// ------------------------------------------------------------------ very long sibling lists on a small stack
+// pop()/remove() of an element with several hundred thousand children (what descending or equal pushes produce) must work with the
+// stack a kernel thread has: the worker runs on a 256 KiB stack. An implementation whose stack use grows with the number of
+// siblings does not return from the call (ASan: stack-overflow).
+struct DeepArg { size_t n; int variant; bool ok; std::string why; };
+static void *deep_worker_body(void *pv);
+static void *deep_worker(void *pv) {
+	DeepArg &a = *(DeepArg *)pv;
+	try { return deep_worker_body(pv); } catch(const PanicStop &p) { a.ok = false; a.why = std::string("library assertion fired: ") + p.msg; }
+	return nullptr;
+}
+static void *deep_worker_body(void *pv) {
+	DeepArg &a = *(DeepArg *)pv;
+	std::vector<HNode> pool(a.n);
+	Heap h;
+	// variant 0: descending priorities (every push becomes a child of the root); 1: all equal; 2: one big root + equal children, then remove() of a demoted element
+	for(size_t i = 0; i < a.n; i++) { pool[i].prio = a.variant == 0 ? (int)(a.n - i) : (i == 0 ? 5 : 3); pool[i].id = (int)i; reset_hook(pool[i]); h.push(&pool[i]); }
+	auto bad = [&](const std::string &w) { if(a.ok) { a.ok = false; a.why = w; } };
+	HNode *t = h.top();
+	if(t != &pool[0]) bad("top() is not the first (largest) element before the pop");
+	h.pop(); // collapses n-1 siblings
+	if(t->hook.child || t->hook.backlink || t->hook.sibling) bad("hook of the popped root not reset");
+	size_t left = a.n - 1;
+	if(a.variant == 2) {
+		// the new root has a long child list again after a second pop; remove a non-root element that has many children
+		HNode *r2 = h.top(); h.pop(); left--;
+		if(r2->prio != 3) bad("second pop returned a wrong priority");
+		HNode *victim = h.top()->hook.child; // first child of the root: carries a large subtree after the pairing pass
+		if(victim) { h.remove(victim); left--; if(victim->hook.child || victim->hook.backlink || victim->hook.sibling) bad("hook of the removed element not reset"); }
+	}
+	// verified drain (the heap must be empty when it is destroyed): non-increasing priorities, nothing repeated, nothing lost
+	int last = 1 << 30; std::vector<bool> seen(a.n, false); size_t popped = 0;
+	while(!h.empty() && popped <= a.n) { HNode *x = h.top(); if(x->prio > last) bad("drain order"); if(seen[x->id]) bad("element returned twice"); seen[x->id] = true; last = x->prio; h.pop(); popped++; }
+	if(popped != left) bad(strf("the drain returned %zu elements, %zu were left in the heap", popped, left));
+	left -= popped <= left ? popped : left;
+	if(h.empty() != (left == 0)) bad("empty() disagrees with the number of elements left");
+	return nullptr;
+}
+static void deep_sibling_lists() {
+	if(!want_mode("deep")) return;
+	long long idx = 0;
+	for(int variant = 0; variant < 3; variant++) for(size_t n : {size_t(50000), size_t(300001)}) {
+		long long my = idx++;
+		if(my % opt.nshards != opt.shard || !want_case(my)) continue;
+		begin_case("deep", my);
+		case_detail("variant %d, %zu elements, worker stack 256 KiB", variant, n);
+		DeepArg a{n, variant, true, ""};
+		pthread_attr_t at; pthread_attr_init(&at); pthread_attr_setstacksize(&at, 256 * 1024);
+		pthread_t th;
+		if(pthread_create(&th, &at, deep_worker, &a) != 0) { count("deep_thread_not_started"); continue; }
+		pthread_join(th, nullptr);
+		pthread_attr_destroy(&at);
+		if(!a.ok) { g_trace = strf("variant %d: %zu pushes (%s), pop, ...", variant, n, variant == 0 ? "descending" : "equal"); g_bad = false; fail("deep-sibling-list", a.why); }
+		note_distinct(mix(hash_str("deep"), variant * 1000003ull + n));
+		count("deep_sibling_list_cases");
+	}
+	sample("deep: 300001 descending (or equal) pushes, pop of the root with 300000 children, remove of a demoted element, verified drain of 2000 - on a worker thread with a 256 KiB stack");
+}
+
 int main(int argc, char **argv) {
 	parse_args(argc, argv, "c08_heap");
 	rec.rule = "a case is one push/pop/remove history (removal targets chosen by structural role); after every operation empty()/top() are compared with the reference multiset "
@@ -188,6 +249,7 @@ int main(int argc, char **argv) {
 	exhaustive("exh", t ? 7 : 6);
 	random_histories("rand:small", scaled(400, 10000), 40, 300);
 	random_histories("rand:large", scaled(6, 150), t ? 10000 : 2000, t ? 40000 : 6000);
+	deep_sibling_lists();
 	sample("exh x=123456: length-6 sequence over {push p0..p3, pop, remove(role)} with checks after every op and a verified drain");
 	sample("rand:large: up to 2000 (thorough 10000) elements, priority streams ascending/descending/3-valued/random, removal by role (root, first child, middle sibling, last sibling, leaf)");
 	return finish();
